@@ -297,23 +297,44 @@ func runC11(c *Ctx) {
 			// Remove of a tracked directory is passed to update
 			okRm := false
 			rv, _ := fsnotifyOp(c, "Remove")
+			badRm := false
 			for _, u := range s.updates {
-				if len(u.Common().Args) == 3 {
-					if elems := c.U.ContainerElems(u.Common().Args[2]); len(elems) == 1 && strings.HasSuffix(c.exprDesc(elems[0]), ".Name") {
-						gs := c.exprGuardsOf(fn, u.(ssa.Instruction))
-						var isRemove, tracked bool
-						for _, g := range gs {
-							if strings.HasSuffix(g, fmt.Sprintf(".Op == %d", rv)) {
-								isRemove = true
-							}
-							if strings.Contains(g, ".tracked[") && !strings.HasPrefix(g, "!") {
-								tracked = true
-							}
+				if len(u.Common().Args) != 3 {
+					continue
+				}
+				// the removed list is built where the event is known to be a Remove of a tracked
+				// directory: either at the call (update(dirErrors, event.Name)) or earlier (a local
+				// list that stays empty otherwise)
+				for _, leaf := range phiLeaves(u.Common().Args[2]) {
+					if ir.IsNilConst(leaf) {
+						continue
+					}
+					elems := c.U.ContainerElems(leaf)
+					if len(elems) != 1 || !strings.HasSuffix(c.exprDesc(elems[0]), ".Name") {
+						badRm = true
+						continue
+					}
+					at := u.(ssa.Instruction)
+					if li, isInstr := leaf.(ssa.Instruction); isInstr && li.Block() != at.Block() {
+						at = li
+					}
+					var isRemove, tracked bool
+					for _, g := range c.exprGuardsOf(fn, at) {
+						if strings.HasSuffix(g, fmt.Sprintf(".Op == %d", rv)) {
+							isRemove = true
 						}
-						okRm = isRemove && tracked
+						if strings.Contains(g, ".tracked[") && !strings.HasPrefix(g, "!") {
+							tracked = true
+						}
+					}
+					if isRemove && tracked {
+						okRm = true
+					} else {
+						badRm = true
 					}
 				}
 			}
+			okRm = okRm && !badRm
 			r.Check("C11.3", "removed-dir-reported", okRm, c.U.Pos(fn.Pos()), "a Remove event for a tracked directory is handed to update as removed")
 		}
 	}
